@@ -9,6 +9,7 @@
 -/
 import Driver.C06
 import Driver.Cast
+import Driver.Std
 
 open Jl
 
@@ -16,6 +17,8 @@ def runLine (line : String) : Driver.Result :=
   match line.splitOn "\t" with
   | ["c06", ops, obs] => DriverC06.runCase ops obs
   | ["cast", prop, callee, src, ext, impl] => Driver.CastCase.runCase prop callee src ext impl
+  | ["rt", prop, via, src, ext, text, back] => Driver.CastCase.runRT prop via src ext text back
+  | ["std", fn, args, impl] => Driver.Std.runCase fn args impl
   | kind :: _ => ⟨"B", s!"unknown case kind or arity: {kind}"⟩
   | [] => ⟨"B", "empty line"⟩
 
